@@ -451,3 +451,103 @@ func (x *clx) callback(owner string, list []ast.Stmt, v int) (string, error) {
 	}
 	return strings.Join(out, ", "), nil
 }
+
+// ---------------------------------------------------------------------------------------- conn.go ApiVersions
+
+// translateApiVersions translates the statements of (*Conn).ApiVersions that follow the waitResponse call: integer reads
+// into locals, one counted loop of integer reads, the error code checked AFTER the whole parse (`errAfter` = true).
+func translateApiVersions(fd *ast.FuncDecl) (prog string, errAfter bool, err error) {
+	idx := -1
+	for i, st := range fd.Body.List {
+		if containsCall(st, "waitResponse") {
+			idx = i
+		}
+	}
+	if idx < 0 {
+		return "", false, fmt.Errorf("ApiVersions: no waitResponse call")
+	}
+	errVars := map[string]bool{}   // X in `if X != 0 { return …, Error(X) }`
+	countVars := map[string]bool{} // X in `for …; i < int(X); …`
+	ast.Inspect(fd.Body, func(n ast.Node) bool {
+		switch s := n.(type) {
+		case *ast.IfStmt:
+			if be, ok := s.Cond.(*ast.BinaryExpr); ok && be.Op == token.NEQ && isIntLit(be.Y, "0") && bodyMakesError(s.Body) {
+				errVars[exprString(be.X)] = true
+			}
+		case *ast.ForStmt:
+			if be, ok := s.Cond.(*ast.BinaryExpr); ok && be.Op == token.LSS {
+				if c, ok := be.Y.(*ast.CallExpr); ok && len(c.Args) == 1 {
+					countVars[exprString(c.Args[0])] = true
+				}
+			}
+		}
+		return true
+	})
+	readOf := func(st ast.Stmt) (string, string, bool) { // `if size, err = readIntN(…, &X); err != nil { return … }`
+		is, ok := st.(*ast.IfStmt)
+		if !ok || is.Init == nil {
+			return "", "", false
+		}
+		as, ok := is.Init.(*ast.AssignStmt)
+		if !ok || len(as.Rhs) != 1 {
+			return "", "", false
+		}
+		c, ok := as.Rhs[0].(*ast.CallExpr)
+		if !ok || len(c.Args) != 3 {
+			return "", "", false
+		}
+		fn, ok := c.Fun.(*ast.Ident)
+		if !ok || intWidth(fn.Name) == 0 {
+			return "", "", false
+		}
+		return fmt.Sprintf(".int %d", intWidth(fn.Name)), addrTarget(c.Args[2]), true
+	}
+	var out []string
+	var pendingCount bool
+	for _, st := range fd.Body.List[idx+1:] {
+		switch s := st.(type) {
+		case *ast.DeclStmt, *ast.DeferStmt, *ast.ReturnStmt:
+		case *ast.AssignStmt: // r := make(…)
+		case *ast.IfStmt:
+			if step, target, ok := readOf(s); ok {
+				switch {
+				case errVars[target]:
+					out = append(out, ".err")
+				case countVars[target]:
+					pendingCount = true // becomes the `.arr` of the loop below
+				default:
+					out = append(out, step)
+				}
+				continue
+			}
+			if be, ok := s.Cond.(*ast.BinaryExpr); ok && errVars[exprString(be.X)] {
+				errAfter = true
+				continue
+			}
+			if be, ok := s.Cond.(*ast.BinaryExpr); ok && be.Op == token.NEQ && exprString(be.Y) == "nil" {
+				continue // the error check right after waitResponse
+			}
+			if id, ok := s.Cond.(*ast.Ident); ok && id.Name == "verifOn" {
+				continue
+			}
+			return "", false, fmt.Errorf("ApiVersions: untranslated if")
+		case *ast.ForStmt:
+			if !pendingCount {
+				return "", false, fmt.Errorf("ApiVersions: loop without a count read before it")
+			}
+			var body []string
+			for _, bs := range s.Body.List {
+				step, _, ok := readOf(bs)
+				if !ok {
+					return "", false, fmt.Errorf("ApiVersions: untranslated statement in the entry loop")
+				}
+				body = append(body, step)
+			}
+			out = append(out, ".arr ["+strings.Join(body, ", ")+"]")
+			pendingCount = false
+		default:
+			return "", false, fmt.Errorf("ApiVersions: untranslated statement %T", st)
+		}
+	}
+	return strings.Join(out, ", "), errAfter, nil
+}
